@@ -337,6 +337,28 @@ pub fn c20(seed: u64, thorough: bool, out: &mut Out) {
         }
         out.ops.push("meta dump".into());
         out.imp.push(dump(&fresh, &topics));
+        // a snapshot can be taken at any point: a second snapshot of the SAME sender, after the further commands
+        // (often ending in a re-registration of a known node), must again reproduce the sender's state
+        {
+            let extra = rng.below(3) as usize;
+            for _ in 0..extra {
+                let c = Cmd::Upsert(rng.below(4), format!("h{}:é{}", rng.below(3), rng.below(9000)));
+                let b = c.bytes();
+                let r1 = reply(m.apply(&b));
+                let _ = fresh.apply(&b);
+                out.ops.push(c.line());
+                out.imp.push(r1);
+            }
+            let snap2 = m.snapshot();
+            let fresh2 = Metadata::new();
+            let ok2 = fresh2.restore(&snap2).is_ok();
+            let same2 = ok2 && dump(&fresh2, &topics) == dump(&m, &topics);
+            if !same2 {
+                out.violations.push(format!("sequence {}: second snapshot of the same sender does not reproduce its state: ok={} orig={} restored={}", s, ok2, dump(&m, &topics), dump(&fresh2, &topics)));
+            }
+            out.ops.push(format!("meta restorecheck {}", hex(&snap2)));
+            out.imp.push((if same2 { "same" } else { "different" }).into());
+        }
         // corrupted snapshots are rejected and leave the state alone
         if !snap.is_empty() {
             let mut bad = snap.clone();
